@@ -30,7 +30,7 @@ def make_graph_case(rng, max_e, max_loops, tries=60, catalogue_bias=0.5, names=N
         D = rng.choice(dims) if dims else rng.randint(1, 6)
         c = graphs.make_case(rng, edges, D, want=True, ext_mode=rng.choice(ext_modes or ["all", "subset", "two", "all"]), tries=30, mass_mode=mass_mode)
         verts = set(v for e in edges for v in e)
-        next_on_graph = len([v for v in c["ext"] if v in verts])
+        next_on_graph = len(set(v for v in c["ext"] if v in verts))
         if next_on_graph == 1 or any(v not in verts for v in c["ext"]):
             continue    # a single external leg cannot carry momentum: no generic kinematics exists (see DESIGN.md, C07)
         if next_on_graph < 2 and not any(c["massive"]):
@@ -60,6 +60,29 @@ def make_special_case(rng, kind):
             if not oracle.divergent_subsets(table) and dod > Fraction(1, 20):
                 return dict(edges=edges, weights=weights, massive=massive, ext=ext, D=D, accepted=True, table=table, dod=dod, loops=Lf,
                             name="huge_j:polygon")
+            continue
+        if kind.startswith("integer_dod"):
+            # overall degree of divergence an exact small integer (and weights that are multiples of 1/8): exponents like dod = 4.0,
+            # D/2 = 2.0 hit every "integral exponent" path exactly
+            name = rng.choice(["bubble", "triangle", "box", "sunrise", "double_triangle", "banana4", "kite"])
+            edges, mp, _ = gen.relabel(rng, list(gen.CATALOGUE[name]))
+            n = len(edges)
+            D = rng.choice([2, 3, 4, 4, 6, 6])
+            massive = [rng.random() < 0.4 for _ in range(n)]
+            ext = list(mp)
+            L = oracle.subset_info(edges, massive, ext, (1 << n) - 1)[0]
+            k = int(kind.split(":")[1]) if ":" in kind else rng.choice([1, 2, 3, 4, 4, 4, 5, 6, 8])
+            units = int((Fraction(L * D, 2) + k) * 8)
+            if units < n:
+                continue
+            parts = [1] * n
+            for _ in range(units - n):
+                parts[rng.randrange(n)] += 1
+            weights = [p / 8.0 for p in parts]
+            dod, Lf, table = oracle.table_oracle(edges, weights, massive, ext, D)
+            if dod == k and not oracle.divergent_subsets(table):
+                return dict(edges=edges, weights=weights, massive=massive, ext=ext, D=D, accepted=True, table=table, dod=dod, loops=Lf,
+                            name="integer_dod:" + name)
             continue
         if kind == "inf_factor":
             # J of the full graph overflows (two propagator powers ~1e-154): cached_factor = +inf, every sample has jacobian = inf.
@@ -111,7 +134,7 @@ def make_kinematics(rng, case, scale=1, decouple=False):
     edges, D = case["edges"], case["D"]
     S, tree = kin.fundamental_signature(rng, edges)
     verts = set(v for e in edges for v in e)
-    ext = [v for v in case["ext"] if v in verts]
+    ext = sorted(set(v for v in case["ext"] if v in verts))      # a vertex listed twice (two legs) is one external vertex
     ext_mom = {}
     if len(ext) >= 2:
         tot = [Fraction(0)] * D
@@ -121,6 +144,11 @@ def make_kinematics(rng, case, scale=1, decouple=False):
         ext_mom[ext[-1]] = [-t for t in tot]
     elif len(ext) == 1:
         ext_mom[ext[0]] = [Fraction(0)] * D
+    plane = D >= 2 and rng.random() < 0.1
+    if plane:
+        # all external momenta (and, in make_routing, all offsets) in the hyperplane orthogonal to the first axis: every shift has an
+        # exactly zero first component
+        ext_mom = {v: [Fraction(0)] + list(p[1:]) for v, p in ext_mom.items()}
     # overall scale of all dimensionful quantities (a power of two: exact); every property is homogeneous in it
     sc = Fraction(scale)
     ext_mom = {v: [t * sc for t in p] for v, p in ext_mom.items()}
@@ -130,7 +158,9 @@ def make_kinematics(rng, case, scale=1, decouple=False):
         # the is_massive flags of the graph steer the importance sampling only; the integrand's masses are whatever edge_data says:
         # masses on edges that are not flagged, and flagged edges without a mass
         masses = [(Fraction(rng.randint(1, 12), 4) * sc if rng.random() < 0.4 else Fraction(0)) if rng.random() < 0.5 else m0 for m0 in masses]
-    return dict(S=S, tree=tree, ext_mom=ext_mom, masses=masses, shifts=shifts)
+    # only m^2 enters every property: a mass may be passed with a negative sign
+    masses = [(-m0 if (m0 != 0 and rng.random() < 0.15) else m0) for m0 in masses]
+    return dict(S=S, tree=tree, ext_mom=ext_mom, masses=masses, shifts=shifts, plane=plane)
 
 
 def make_routing(rng, case, variant="random", kinem=None):
@@ -157,6 +187,13 @@ def make_routing(rng, case, variant="random", kinem=None):
         flips = [rng.choice([1, 1, -1]) for _ in range(n)]
         if rng.random() < 0.7:
             offsets = [[dy(rng, -3, 3) for _ in range(D)] for _ in range(L)]
+    if any(any(c != 0 for c in o) for o in offsets):
+        if kinem.get("plane"):
+            offsets = [[Fraction(0)] + o[1:] for o in offsets]
+        elif rng.random() < 0.1:
+            # offsets far larger than the physical scales: V is then a small difference of large numbers (cancellation ratio ~1e10)
+            big = Fraction(2) ** rng.randint(14, 18)
+            offsets = [[c * big for c in o] for o in offsets]
     S2 = kin.mat_mul_int(S, P)
     sh = [[shifts[e][i] + sum(S2[e][l] * offsets[l][i] for l in range(L)) for i in range(D)] for e in range(n)]
     S3 = [[flips[e] * S2[e][l] for l in range(L)] for e in range(n)]
